@@ -41,6 +41,10 @@ Muts ==
   \cup {Mut("ctrl", f, v) : f \in 0..5, v \in {0, -21, -19, -2, -1}}
   \cup {Mut("img64", o, v) : o \in {8, 16, 24}, v \in {0, -21, -19, -2, -1, -4, -5}}
   \cup {Mut("img64", 0, 0)}
+  \* a whole digest field replaced by a constant (all 0x00 / 0xFF / 0x20; off 24 = md5_before, 40 = md5_after),
+  \* alone, with a damaged payload byte, and with a base that is not the one the patch was made for
+  \cup {Mut(k, o, v) : k \in {"dig", "dig+payload", "dig+base"}, o \in {24, 40}, v \in {0, 255, 32}}
+  \cup {Mut("payload", 0, 0)}
   \cup {Mut("base", pm, 0) : pm \in {0, 500, 1000}}
   \cup {Mut("baseLen", 0, v) : v \in {1, -1}}
 Alphas == IF Thorough THEN {"random", "zeros", "sparse", "high"} ELSE {"random", "sparse"}
